@@ -92,16 +92,25 @@ Theorem C20_wait_at_least : forall fuel c target s t, ph s = PBackoff t -> targe
 Proof. exact advance_waits. Qed.
 Print Assumptions C20_wait_at_least.
 
-(* "unless the backoff is explicitly reset": ResetConnectBackoff during a wait dials at
-   once and zeroes the index (model and driver skip it while a dial is in flight) *)
+(* "unless the backoff is explicitly reset": a ResetConnectBackoff made DURING the wait
+   dials at once and zeroes the index ... *)
 Theorem C20_reset_cuts_wait : forall c s t, ph s = PBackoff t -> okmode s = false -> fdelay s <= 0 ->
   pstep c s [4] = Some (mkp (now s) false 0 (PBackoff (now s + bo c 0)) (fdelay s) true, [1; now s; 3]).
 Proof. exact reset_dials_now. Qed.
 Print Assumptions C20_reset_cuts_wait.
-Theorem C20_reset_zeroes_index : forall c s s' o, (forall t b, ph s <> PConnecting t b) ->
-  pstep c s [4] = Some (s', o) -> idx s' = 0.
+Theorem C20_reset_zeroes_index : forall c s s' o, pstep c s [4] = Some (s', o) -> idx s' = 0.
 Proof. exact reset_idx. Qed.
 Print Assumptions C20_reset_zeroes_index.
+(* ... whereas a reset made while the attempt is still in flight (before its failure) only
+   zeroes the index: the failure time and the backoffFor of that attempt stay armed (the
+   code reads the resetBackoff channel after the failure), nothing is dialled; by
+   C20_wait_counts_from_failure and C20_wait_at_least the sub-channel then still waits the
+   full backoff after the failure *)
+Theorem C20_reset_in_flight_keeps_wait : forall c s t b, ph s = PConnecting t b ->
+  pstep c s [4] = Some (mkp (now s) (okmode s) 0 (PConnecting t b) (fdelay s) (sticky s),
+                        [0; if sticky s then 3 else 1]).
+Proof. exact reset_in_flight. Qed.
+Print Assumptions C20_reset_in_flight_keeps_wait.
 
 (* "the backoff index resets after a successful connection" *)
 Theorem C20_reset_on_success : forall c s, okmode s = true -> idx (dial c s) = 0 /\ ph (dial c s) = PReady.
@@ -151,9 +160,9 @@ Example C20_witness :
   | Some c => cfg_wf c && (backoff c 1 0%float =? 1280000000) && (backoff c 200 rmax =? 144000000000)
   | None => false
   end = true /\
-  match decode_cfg C20_paccfg with Some c => forallb (op_wf_total c) [[1; 3; 0]; [6]; [3; 3500000]; [2; 1]; [3; 10000000]; [5]; [2; 0]; [6]; [4]; [7; 400000]; [3; 1000000]; [3; 2000000]] | None => false end = true /\
-  forallb op_wf [[1; 3; 0]; [6]; [3; 3500000]; [2; 1]; [3; 10000000]; [5]; [2; 0]; [6]; [4]; [7; 400000]; [3; 1000000]; [3; 2000000]] = true /\
-  run C20_paccfg [[1; 3; 0]; [6]; [3; 3500000]; [2; 1]; [3; 10000000]; [5]; [2; 0]; [6]; [4]; [7; 400000]; [3; 1000000]; [3; 2000000]] =
+  match decode_cfg C20_paccfg with Some c => forallb (op_wf_total c) [[1; 3; 0]; [6]; [3; 3500000]; [2; 1]; [3; 10000000]; [5]; [2; 0]; [6]; [4]; [7; 400000]; [3; 1000000]; [3; 2000000]; [3; 500000]; [4]; [3; 5000000]] | None => false end = true /\
+  forallb op_wf [[1; 3; 0]; [6]; [3; 3500000]; [2; 1]; [3; 10000000]; [5]; [2; 0]; [6]; [4]; [7; 400000]; [3; 1000000]; [3; 2000000]; [3; 500000]; [4]; [3; 5000000]] = true /\
+  run C20_paccfg [[1; 3; 0]; [6]; [3; 3500000]; [2; 1]; [3; 10000000]; [5]; [2; 0]; [6]; [4]; [7; 400000]; [3; 1000000]; [3; 2000000]; [3; 500000]; [4]; [3; 5000000]] =
     Some [[3000000]; [1; 0; 3]; [2; 1000000; 3000000; 3]; [0; 3]; [1; 6000000; 2]; [0; 0]; [0; 0];
-          [1; 13500000; 3]; [1; 13500000; 3]; [0; 3]; [1; 14500000; 3]; [0; 3]].
+          [1; 13500000; 3]; [1; 13500000; 3]; [0; 3]; [1; 14500000; 3]; [0; 3]; [1; 16900000; 3]; [0; 3]; [1; 20300000; 3]].
 Proof. vm_compute. repeat split. Qed.
